@@ -2,6 +2,7 @@ package rules
 
 import (
 	"go/ast"
+	"go/constant"
 	"go/token"
 	"go/types"
 	"sort"
@@ -384,6 +385,96 @@ func runC07_10(c *core.Ctx) {
 				}
 				return true
 			})
+			// the same sweep written as a counted loop: for j := 0; j < i; j++ { listeners[j].close() }
+			ast.Inspect(f.Decl.Body, func(n ast.Node) bool {
+				fs, ok := n.(*ast.ForStmt)
+				if !ok || fs.Init == nil || fs.Cond == nil || fs.Post == nil {
+					return true
+				}
+				init, ok1 := fs.Init.(*ast.AssignStmt)
+				post, ok2 := fs.Post.(*ast.IncDecStmt)
+				if !ok1 || !ok2 || post.Tok != token.INC || len(init.Lhs) != 1 || len(init.Rhs) != 1 {
+					return true
+				}
+				jv := flow.ObjOf(f.Info, init.Lhs[0])
+				cv := flow.ConstOf(f.Info, init.Rhs[0])
+				if jv == nil || flow.ObjOf(f.Info, post.X) != jv || cv == nil || constant.Sign(cv) != 0 {
+					return true
+				}
+				x, y, op, ok := flow.Cmp(fs.Cond)
+				if !ok || !((flow.ObjOf(f.Info, x) == jv && op == token.LSS) || (flow.ObjOf(f.Info, y) == jv && op == token.GTR)) {
+					return true
+				}
+				if jvar, ok := jv.(*types.Var); !ok || assignCount(f, jvar) != 3 { // := and ++ (counted twice)
+					return true
+				}
+				for _, call := range callsIn(fs.Body, false) {
+					if !flow.IsCall(f.Info, call, lnClose) && !flow.IsCall(f.Info, call, pollerClose) {
+						continue
+					}
+					if ie, ok := ast.Unparen(flow.Recv(call)).(*ast.IndexExpr); ok && flow.ObjOf(f.Info, ie.Index) == jv {
+						if o := flow.ObjOf(f.Info, ie.X); o != nil && containers[o] {
+							rangeCloses[fs.Cond] = true
+						}
+					}
+				}
+				return true
+			})
+			// the sweep as a deferred clean-up keyed on the function's own error result:
+			//   defer func() { if err == nil { return }; for _, ln := range lns { ln.close() } }()
+			// every exit of the closure either swept a container or passed the `err == nil` edge
+			deferSweeps := false
+			var errResult types.Object
+			if rl := f.Decl.Type.Results; rl != nil {
+				for _, fld := range rl.List {
+					for _, nm := range fld.Names {
+						if o := f.Info.Defs[nm]; o != nil && isErrorType(o.Type()) {
+							errResult = o
+						}
+					}
+				}
+			}
+			for _, d := range g.Defers {
+				fl, ok := d.Call.Fun.(*ast.FuncLit)
+				if !ok || errResult == nil || len(d.Call.Args) != 0 {
+					continue
+				}
+				const fSwept, fNoErr = 1, 2
+				dg := flow.New(c.P.Fset, f.Info, fl.Body)
+				dp := &flow.Problem{Must: true}
+				dp.Node = func(b *flow.Block, i int, n ast.Node, in uint64) uint64 {
+					if e, ok := n.(ast.Expr); ok && rangeCloses[e] {
+						in |= fSwept
+					}
+					return in
+				}
+				dp.Edge = func(e *flow.Edge, in uint64) uint64 {
+					if e.Cond != nil && e.Tag == nil {
+						if x, y, op, ok := flow.Cmp(e.Cond); ok && flow.IsNil(f.Info, y) && flow.ObjOf(f.Info, x) == errResult && (op == token.EQL) == e.Sense {
+							in |= fNoErr
+						}
+					}
+					return in
+				}
+				ds := dg.Solve(dp)
+				all, exits := true, 0
+				for _, b := range dg.Exits() {
+					exits++
+					if ds.Out(b)&(fSwept|fNoErr) == 0 {
+						all = false
+					}
+				}
+				swept := false
+				ast.Inspect(fl.Body, func(n ast.Node) bool {
+					if e, ok := n.(ast.Expr); ok && rangeCloses[e] {
+						swept = true
+					}
+					return true
+				})
+				if all && exits > 0 && swept {
+					deferSweeps = true
+				}
+			}
 			const collected = 8 // earlier iterations stored their object in a local container that this function still owns
 			au := &flow.Auto{Start: sNone}
 			au.Node = func(b *flow.Block, i int, n ast.Node, st int) int {
@@ -393,6 +484,15 @@ func runC07_10(c *core.Ctx) {
 						col = collected
 					}
 					return sHeld | col
+				}
+				if as, ok := n.(*ast.AssignStmt); ok && s == sOwned && len(as.Lhs) == len(as.Rhs) {
+					for k, l := range as.Lhs { // listeners[i] = ln: from here on it is one of the collected ones
+						if ie, ok := ast.Unparen(l).(*ast.IndexExpr); ok && flow.ObjOf(f.Info, as.Rhs[k]) == a.obj {
+							if o := flow.ObjOf(f.Info, ie.X); o != nil && containers[o] {
+								return sNone | collected
+							}
+						}
+					}
 				}
 				if closesObj(n) && (s == sOwned || s == sHeld) {
 					s = sSafe
@@ -431,6 +531,18 @@ func runC07_10(c *core.Ctx) {
 				}
 				if !owned {
 					return
+				}
+				if deferSweeps {
+					// the deferred sweep covers everything already stored in a container; an object created but not yet stored stays this path's duty
+					owned = false
+					for _, st := range flow.States(sol.Out(b)) {
+						if st&7 == sOwned {
+							owned = true
+						}
+					}
+					if !owned {
+						return
+					}
 				}
 				r := b.Return
 				// success returns hand the object (or its container/owner) to the caller: last result nil
